@@ -384,7 +384,7 @@ func (fc *FnCtx) loopStep(b, h *ssa.BasicBlock) {
 		env.iterPre = fc.iterPre[h]
 		for i, inv := range ls.Invariants {
 			t := env.boolExpr(inv.Expr)
-			fc.oblige("inv-step", fmt.Sprintf("L%d.%d", n, i+1), b.Instrs[len(b.Instrs)-1].Pos(), t, inv.Src, inv.Name)
+			fc.oblige("inv-step", fmt.Sprintf("L%d.%d", n, i+1), lastPos(b), t, inv.Src, inv.Name)
 		}
 		if ls.Decreases != nil {
 			envOld := fc.envAt(fc.exitOrCur(h), fc.hdrVars[h])
@@ -510,4 +510,14 @@ func (fc *FnCtx) constVal(c *ssa.Const) Val {
 
 func unquoteGo(s string) (string, error) {
 	return strconvUnquote(s)
+}
+
+// lastPos: the source position of the last instruction of b that has one (jumps have none)
+func lastPos(b *ssa.BasicBlock) token.Pos {
+	for i := len(b.Instrs) - 1; i >= 0; i-- {
+		if p := b.Instrs[i].Pos(); p != token.NoPos {
+			return p
+		}
+	}
+	return token.NoPos
 }
